@@ -5,7 +5,8 @@
    every spelling reads back to the same items/forest, hence (all outputs being functions of the
    forest) to the same results; the harness replays every spelled document and compares bytes. *)
 EXTENDS MC_Doc
-C15_Names == { <<"a">>, <<"a", "SP", "PL", "b">>, <<"b", "HY", "a">> }
+C15_Names3 == { <<"a">>, <<"a", "SP", "HY", "SP", "b">>, <<"b", "SH">> }
+C15_Names == { <<"a">>, <<"a", "SP", "PL", "b">>, <<"a", "SP", "HY", "SP", "b">>, <<"b", "SH">> }
 Base == [unit |-> <<"SP", "SP">>, heading |-> FALSE, crlf |-> FALSE, bullets |-> {"HY"}, blanks |-> FALSE]
 C15_Sigma == {
   Base,
